@@ -95,10 +95,10 @@ def sync_term(r):
     pairs = lambda l: clist(l, lambda x: "(%d, %d)" % tuple(x))
     obs = "(%s, %s, %s, %s, %s, %s)" % (clist(r["after"]), cbool(r["banned"]), cbool(bool(r["err"])), pairs(r["tempafter"]),
                                        cbool(r["lowdeleted"]), cbool(r["dbequal"]))
-    truth = "(%s, %s, %d, %s, %s)" % (cbool(r["honest"]), cbool(r["better"]), r["forkh"], clist(r["peerchain"]),
-                                      cbool(not r["spec"].get("sender")))
+    truth = "(%s, %s, %d, %s, %s, %s)" % (cbool(r["honest"]), cbool(r["better"]), r["forkh"], clist(r["peerchain"]),
+                                          cbool(not r["spec"].get("sender")), cbool(r.get("genisvalidator", True)))
     return "(%d, %d, %d, (%d)%%Z, %s, %s, %d, %s, %s, %d, %s, %s, %s)" % (
-        r["ownh"], r["blockh"], r["spec"]["n"], r["slotgap"], clist(r["before"]), pairs(r.get("tempbefore") or []), r["finalized"],
+        r["ownh"], r["blockh"], r.get("nvals") or r["spec"]["n"], r["slotgap"], clist(r["before"]), pairs(r.get("tempbefore") or []), r["finalized"],
         common, clist(r["delivered"]), e, pairs(r["links"]), truth, obs)
 
 
@@ -153,7 +153,7 @@ def evaluate(ck, recs):
         elif r.get("hang") or r.get("panic"):
             ck.count()
             ck.fail_case("c19:sync:%s" % ("hang" if r.get("hang") else "panic"),
-                         "Syncer.Sync %s on %s" % ("did not return within 12 s (peer answers: %s)" % (r["spec"].get("stall") or "-") if r.get("hang") else "panicked: " + r["panic"],
+                         "Syncer.Sync %s on %s" % ("did not return within 12 s, nor within 45 s when run again (peer answers: %s)" % (r["spec"].get("stall") or "-") if r.get("hang") else "panicked: " + r["panic"],
                                                    json.dumps(r["spec"])), r, corr="two-node sync run")
         else:
             syncs.append(r)
@@ -165,7 +165,7 @@ def evaluate(ck, recs):
             ck.nontrivial(("sync", r.get("phase", 1), r["kind"], sp["n"], sp["prefix"], sp["own"], sp["peer"], sp["full"], sp["hcb"],
                            sp["corrupt"], sp["corruptkind"] if sp["corrupt"] >= 0 else "", sp["errafter"], sp.get("stall", ""),
                            sp.get("own2", 0), sp.get("corrupt2", -1), sp.get("errafter2", -1), bool(r.get("tempbefore")), bool(sp.get("sender")),
-                           sp.get("sendershare", 0), sp.get("forkmode", ""), bool(sp.get("recent")), r["better"], r["ownh"] > r["blockh"]))
+                           sp.get("sendershare", 0), sp.get("forkmode", ""), bool(sp.get("recent")), r["better"], r["ownh"] > r["blockh"], bool(sp.get("nonvalidator"))))
             if code != 0:
                 add_failure(ck, "sync", code,
                             "sync run: node did not end on the honest better peer's chain / failed fast sync did not restore the "
